@@ -78,6 +78,8 @@ pub enum Val {
     MapNoLen(Vec<(Val, Val)>),
     /// a Display value written in several fragments, serialised with collect_str
     Display(Vec<String>),
+    /// a Display value written one char at a time through `Formatter::write_char`
+    DisplayChars(String),
 }
 
 #[derive(Clone, Debug, PartialEq, Eq, Hash, PartialOrd, Ord, Serialize, Deserialize)]
@@ -102,18 +104,19 @@ mod as_str {
     }
 }
 
-pub const FNAMES: [&str; 8] = ["f0", "f1", "f2", "f3", "f4", "f5", "f6", "f7"];
+/// deliberately NOT in ascending order: a JSON object sorts its keys, a schema keeps declaration order
+pub const FNAMES: [&str; 8] = ["m", "c", "x", "a", "k", "b", "z", "d"];
 pub const VNAMES: [&str; 8] = ["V0", "V1", "V2", "V3", "V4", "V5", "V6", "V7"];
 pub static FIELDS: [&[&str]; 9] = [
     &[],
-    &["f0"],
-    &["f0", "f1"],
-    &["f0", "f1", "f2"],
-    &["f0", "f1", "f2", "f3"],
-    &["f0", "f1", "f2", "f3", "f4"],
-    &["f0", "f1", "f2", "f3", "f4", "f5"],
-    &["f0", "f1", "f2", "f3", "f4", "f5", "f6"],
-    &["f0", "f1", "f2", "f3", "f4", "f5", "f6", "f7"],
+    &["m"],
+    &["m", "c"],
+    &["m", "c", "x"],
+    &["m", "c", "x", "a"],
+    &["m", "c", "x", "a", "k"],
+    &["m", "c", "x", "a", "k", "b"],
+    &["m", "c", "x", "a", "k", "b", "z"],
+    &["m", "c", "x", "a", "k", "b", "z", "d"],
 ];
 pub static VARIANTS: [&[&str]; 9] = [
     &[],
